@@ -10,6 +10,7 @@ mod c25;
 mod c29;
 mod c20;
 mod c22;
+mod c23;
 mod gens;
 mod lang;
 mod vrlrun;
@@ -37,6 +38,7 @@ const EXECS: &[Exec] = &[
     c20::exec,
     c22::exec,
     c15::exec,
+    c23::exec,
 ];
 
 /// Run one case (`op` + inputs) on the implementation: the first module that recognises the op answers.
@@ -62,6 +64,7 @@ fn generate(prop: &str, sink: &mut sink::Sink, rng: &mut rng::Rng, n: u64) -> bo
         "C29int" => c29::generate(sink, rng, n),
         "C20" => c20::generate(sink, rng, n),
         "C22" => c22::generate(sink, rng, n),
+        "C23" => c23::generate(sink, rng, n),
         _ => return false,
     }
     true
